@@ -366,7 +366,13 @@ def c14_one(rec, case):
         wav_um[n // 2] = 0.55
         wav_um = np.unique(wav_um)
         n = len(wav_um)
-    chi = 10. ** rng.uniform(0, 4, n)
+    if n <= 12:
+        chi = 10. ** rng.uniform(0, 4, n)
+    else:
+        # long tables: neighbouring opacities within a factor ~1.4 (a 4-decade jump over a 2% step in wavelength
+        # amplifies the 12-digit text file and one-ulp unit round trips beyond any fixed tolerance; that is
+        # conditioning, not the property)
+        chi = 10. ** (2. + np.cumsum(rng.uniform(-0.15, 0.15, n)))
     wu = {'micron': u.micron, 'AA': u.AA, 'cm': u.cm, 'nm': u.nm}[c['wav_unit']]
     cu = {'cgs': u.cm ** 2 / u.g, 'si': u.m ** 2 / u.kg}[c['chi_unit']]
     e = Extinction()
@@ -384,7 +390,13 @@ def c14_one(rec, case):
     ok = True
     try:
         got = np.asarray(e.get_av((q * u.micron).to(qu)))
-        ok &= rec.expect(close(got, oracle(q), 1e-8, 1e-12), 'pattern', 'extinction pattern differs from -0.4 chi/chi_V (table in %s/%s, query in %s)' % (c['wav_unit'], c['chi_unit'], c['q_unit']), case)
+        exp = oracle(q)
+        if qu != wu:
+            # a query that coincides with the first/last tabulated wavelength and goes through a unit conversion may land
+            # one ulp outside the table (float rounding, outside the property): accept "outside" for exactly those
+            at_end = (np.abs(q - wav_um[0]) <= 1e-12 * wav_um[0]) | (np.abs(q - wav_um[-1]) <= 1e-12 * wav_um[-1])
+            exp = np.where(at_end & (got == 0.), 0., exp)
+        ok &= rec.expect(close(got, exp, 1e-8, 1e-12), 'pattern', 'extinction pattern differs from -0.4 chi/chi_V (table in %s/%s, query in %s)' % (c['wav_unit'], c['chi_unit'], c['q_unit']), case)
         ok &= rec.expect(abs(float(np.asarray(e.get_av([0.55] * u.micron))[0]) + 0.4) <= 1e-12, 'normalised_at_V', 'pattern is not -0.4 at 0.55 micron', case)
         # exactly on the end nodes (bit-equal queries)
         ends = np.asarray(e.get_av(u.Quantity([e.wav[0], e.wav[-1]])))
